@@ -1,9 +1,19 @@
 import GeomV.C09.ProofsPipeline
 /-!
-C09, phase 2: the constructors. `go_init_<p>_eq_js`: the constants a Go constructor computes (and the
-fields it writes to `*SR`) equal those of the proj4js `init`, for parameters that mean the same on
-both sides (`Same`); composed with the closure identities this gives `go_<p>_fwd_eq_js'` /
-`go_<p>_inv_eq_js'` WITHOUT the "given equal captured constants" hypothesis.
+C09: the constructors. The Go side is the REGENERATED constructor body `Gen.Go.<Ctor>_init` (through
+the plumbing `Model.<p>Init`), the proj4js side the `init` of `lib/projections/<p>.js` (`Js.<p>Init`).
+`go_init_<p>_eq_js`: for parameters that mean the same on both sides (`Same`: a field is set on one
+side iff on the other, to the same number) the Go constructor succeeds and the constants its closures
+capture, and the fields it leaves in `*SR`, equal what the proj4js `init` leaves in the object.
+Composed with the closure identities: `go_<p>_fwd_eq_js'` / `go_<p>_inv_eq_js'` WITHOUT the "given
+equal captured constants" hypothesis.
+
+Where the two constructors treat a parameter differently the hypothesis says so:
+* a parameter VALUE 0 is "absent" for proj4js where it tests truthiness (`lat_ts`, `k0`, `k`, `lat2`,
+  `x0`/`y0` in lcc, `lat0`/`long0`/`k0` in krovak) and present for the port (`math.IsNaN`);
+* proj4js' merc has no default for `long0`;
+* merc.js/lcc.js recompute e from a and b, the port's closures read the `E` of `DeriveConstants`:
+  equal when `E = √(1 − (b/a)²)` (lemma `es_forms`: that is what `DeriveConstants` computes, a ≠ 0).
 -/
 open GeomV.C09
 namespace GeomV.C09
@@ -11,7 +21,7 @@ set_option linter.unusedSimpArgs false
 set_option linter.unusedVariables false
 set_option linter.unusedTactic false
 set_option linter.unreachableTactic false
-set_option maxRecDepth 4000
+set_option maxRecDepth 8000
 
 /-- the Go `*SR` and the proj4js object carry the same parameters: a field is set on one side iff it
 is set on the other (Go: not NaN; proj4js: the property exists), to the same number -/
@@ -37,38 +47,11 @@ structure Same (s : Model.SR ℝ) (o : Js.Obj ℝ) : Prop where
 
 theorem num_eq {a b : Option ℝ} (h : a = b) : Js.num a = Model.gnum b := by
   subst h; rfl
-
-/-- `TMerc` constructor = tmerc.js `init`: same e0…e3, same ml0; the parameters stay the same -/
-theorem go_init_tmerc_eq_js (s : Model.SR ℝ) (o : Js.Obj ℝ) (h : Same s o) :
-    Same (Model.tmercInit s).1 (Js.tmercInit o) ∧
-    (Js.tmercInit o).e0 = (Model.tmercInit s).2.e0 ∧ (Js.tmercInit o).e1 = (Model.tmercInit s).2.e1 ∧
-    (Js.tmercInit o).e2 = (Model.tmercInit s).2.e2 ∧ (Js.tmercInit o).e3s = (Model.tmercInit s).2.e3 ∧
-    (Js.tmercInit o).ml0 = (Model.tmercInit s).2.ml0 := by
-  refine ⟨⟨h.a, h.b, h.lat0, h.lat1, h.lat2, h.latts, h.long0, h.x0, h.y0, h.k0, h.k, h.zone, h.sphere, h.czech, h.south,
-    h.es, h.e, h.ep2⟩, ?_, ?_, ?_, ?_, ?_⟩ <;>
-    simp only [Model.tmercInit, Js.tmercInit, Model.aS, Js.aO, h.es, num_eq h.a, num_eq h.lat0, go_e0fn_eq_js,
-      go_e1fn_eq_js, go_e2fn_eq_js, go_e3fn_eq_js, go_mlfn_eq_js]
-
-/-- **transverse Mercator, constructor + forward closure** (ellipsoid): no hypothesis on constants -/
-theorem go_tmerc_fwd_eq_js' (s : Model.SR ℝ) (o : Js.Obj ℝ) (h : Same s o) (hs : s.sphere = false)
-    (lon lat : ℝ) (z : Option ℝ) :
-    okOf (Model.tmercFwd (Model.tmercInit s).1 (Model.tmercInit s).2 lon lat) =
-      xyOf (Js.tmercForward (Js.tmercInit o) ⟨lon, lat, z⟩) := by
-  obtain ⟨hS, h0, h1, h2, h3, hml⟩ := go_init_tmerc_eq_js s o h
-  have hs' : (Model.tmercInit s).1.sphere = false := by unfold Model.tmercInit; exact hs
-  exact go_tmerc_fwd_eq_js _ _ _ lon lat z hs' (by rw [hS.sphere]; exact hs') (num_eq hS.a) (num_eq hS.x0) (num_eq hS.y0)
-    (num_eq hS.long0) (num_eq hS.k0) hS.es hS.ep2 h0 h1 h2 h3 hml
-
-/-- transverse Mercator, constructor + inverse closure (sphere and ellipsoid) -/
-theorem go_tmerc_inv_eq_js' (s : Model.SR ℝ) (o : Js.Obj ℝ) (h : Same s o) (x y : ℝ) (z : Option ℝ) :
-    okOf (Model.tmercInv (Model.tmercInit s).1 (Model.tmercInit s).2 x y) =
-      xyOf (Js.tmercInverse (Js.tmercInit o) ⟨x, y, z⟩) := by
-  obtain ⟨hS, h0, h1, h2, h3, hml⟩ := go_init_tmerc_eq_js s o h
-  exact go_tmerc_inv_eq_js _ _ _ x y z (num_eq hS.a) (num_eq hS.x0) (num_eq hS.y0) (num_eq hS.long0) (num_eq hS.k0)
-    (num_eq hS.lat0) hS.sphere hS.es hS.ep2 h0 h1 h2 h3 hml
 theorem gNaN_some (v : ℝ) : Model.gNaN (some v) = false := by
   unfold Model.gNaN; rnum
 theorem gNaN_none : Model.gNaN (none : Option ℝ) = true := rfl
+theorem gnum_some (v : ℝ) : Model.gnum (some v) = v := rfl
+theorem num_some (v : ℝ) : Js.num (some v) = v := rfl
 theorem truthyO_some (v : ℝ) : Js.truthyO (some v) = !decide (v = 0) := by
   unfold Js.truthyO; rnum
 theorem truthyO_none : Js.truthyO (none : Option ℝ) = false := rfl
@@ -77,9 +60,43 @@ theorem truthyO_none : Js.truthyO (none : Option ℝ) = false := rfl
 theorem es_forms (a b : ℝ) (ha : a ≠ 0) : (a * a - b * b) / (a * a) = 1 - b / a * (b / a) := by
   field_simp
 
+/-! ## transverse Mercator / UTM -/
+
+/-- `TMerc` constructor = tmerc.js `init`: it succeeds, same e0…e3, same ml0; the parameters stay -/
+theorem go_init_tmerc_eq_js (s : Model.SR ℝ) (o : Js.Obj ℝ) (h : Same s o) :
+    ∃ c, Model.tmercInit s = .ok (s, c) ∧ Same s (Js.tmercInit o) ∧
+    (Js.tmercInit o).e0 = c.e0 ∧ (Js.tmercInit o).e1 = c.e1 ∧
+    (Js.tmercInit o).e2 = c.e2 ∧ (Js.tmercInit o).e3s = c.e3 ∧ (Js.tmercInit o).ml0 = c.ml0 := by
+  refine ⟨_, rfl, ⟨h.a, h.b, h.lat0, h.lat1, h.lat2, h.latts, h.long0, h.x0, h.y0, h.k0, h.k, h.zone, h.sphere, h.czech, h.south,
+    h.es, h.e, h.ep2⟩, ?_, ?_, ?_, ?_, ?_⟩ <;>
+    simp only [Js.tmercInit, Js.aO, h.es, num_eq h.a, num_eq h.lat0, go_e0fn_eq_js,
+      go_e1fn_eq_js, go_e2fn_eq_js, go_e3fn_eq_js, go_mlfn_eq_js]
+
+/-- reading a Go `(forward, inverse, err)` constructor followed by a closure call -/
+theorem bind_ok_eq {β γ : Type} (v : β) (f : β → Except String γ) : ((Except.ok v : Except String β) >>= f) = f v := rfl
+
+/-- **transverse Mercator, constructor + forward closure** (ellipsoid): no hypothesis on constants -/
+theorem go_tmerc_fwd_eq_js' (s : Model.SR ℝ) (o : Js.Obj ℝ) (h : Same s o) (hs : s.sphere = false)
+    (lon lat : ℝ) (z : Option ℝ) :
+    okOf (Model.tmercInit s >>= fun sc => Model.tmercFwd sc.1 sc.2 lon lat) =
+      xyOf (Js.tmercForward (Js.tmercInit o) ⟨lon, lat, z⟩) := by
+  obtain ⟨c, hc, hS, h0, h1, h2, h3, hml⟩ := go_init_tmerc_eq_js s o h
+  rw [hc, bind_ok_eq]
+  exact go_tmerc_fwd_eq_js _ _ _ lon lat z hs (by rw [hS.sphere]; exact hs) (num_eq hS.a) (num_eq hS.x0) (num_eq hS.y0)
+    (num_eq hS.long0) (num_eq hS.k0) hS.es hS.ep2 h0 h1 h2 h3 hml
+
+/-- transverse Mercator, constructor + inverse closure (sphere and ellipsoid) -/
+theorem go_tmerc_inv_eq_js' (s : Model.SR ℝ) (o : Js.Obj ℝ) (h : Same s o) (x y : ℝ) (z : Option ℝ) :
+    okOf (Model.tmercInit s >>= fun sc => Model.tmercInv sc.1 sc.2 x y) =
+      xyOf (Js.tmercInverse (Js.tmercInit o) ⟨x, y, z⟩) := by
+  obtain ⟨c, hc, hS, h0, h1, h2, h3, hml⟩ := go_init_tmerc_eq_js s o h
+  rw [hc, bind_ok_eq]
+  exact go_tmerc_inv_eq_js _ _ _ x y z (num_eq hS.a) (num_eq hS.x0) (num_eq hS.y0) (num_eq hS.long0) (num_eq hS.k0)
+    (num_eq hS.lat0) hS.sphere hS.es hS.ep2 h0 h1 h2 h3 hml
+
 /-- the fields `UTM` / utm.js write before handing over to transverse Mercator -/
 noncomputable def utmSR (s : Model.SR ℝ) : Model.SR ℝ :=
-  { s with lat0 := some 0, long0 := some (((6 * |Model.gnum s.zone|) - 183) * Gen.Go.c_deg2rad), x0 := some 500000,
+  { s with lat0 := some 0, long0 := some (((6 * |Model.gnum s.zone|) - 183) * 0.01745329251994329577), x0 := some 500000,
            y0 := some (if s.utmSouth then 10000000 else 0), k0 := some 0.9996 }
 noncomputable def utmObj (o : Js.Obj ℝ) : Js.Obj ℝ :=
   { o with lat0 := some 0, long0 := some (((6 * |Js.num o.zone|) - 183) * Js.D2R), x0 := some 500000,
@@ -88,32 +105,37 @@ noncomputable def utmObj (o : Js.Obj ℝ) : Js.Obj ℝ :=
 /-- **`UTM` constructor = utm.js `init`** when the zone is given and not 0 (proj4js: `if (!this.zone)
 return` leaves the object without methods; the port fails only when the zone is absent) -/
 theorem go_init_utm_eq_js (s : Model.SR ℝ) (o : Js.Obj ℝ) (h : Same s o) (v : ℝ) (hz : s.zone = some v) (hv : v ≠ 0) :
-    Model.utmInit s = .ok (Model.tmercInit (utmSR s)) ∧ Js.utmInit o = Js.tmercInit (utmObj o) ∧
+    Model.utmInit s = Model.tmercInit (utmSR s) ∧ Js.utmInit o = Js.tmercInit (utmObj o) ∧
     Same (utmSR s) (utmObj o) := by
   have hc := go_consts_eq_js
   refine ⟨?_, ?_, ?_⟩
-  · unfold Model.utmInit utmSR
-    simp only [hz, gNaN_some, Bool.false_eq_true, if_false, ite_false]
+  · unfold Model.utmInit Gen.Go.UTM_init utmSR
+    simp only [Model.optNaN_eq, Model.optNum_eq, hz, gNaN_some, Bool.false_eq_true, if_false, ite_false]
     rnum
   · unfold Js.utmInit utmObj
     simp only [h.zone, hz, truthyO_some, hv, decide_false, Bool.not_false, Bool.not_true, Bool.false_eq_true, if_false, ite_false]
     rnum
   · unfold utmSR utmObj
     refine ⟨h.a, h.b, rfl, h.lat1, h.lat2, h.latts, ?_, rfl, ?_, rfl, h.k, h.zone, h.sphere, h.czech, h.south, h.es, h.e, h.ep2⟩
-    · simp only [num_eq h.zone, hc.1]
+    · simp only [num_eq h.zone]; unfold Js.D2R; rnum
     · simp only [h.south]
 
 /-- UTM, constructor + forward closure (ellipsoid), no hypothesis on constants -/
 theorem go_utm_fwd_eq_js' (s : Model.SR ℝ) (o : Js.Obj ℝ) (h : Same s o) (v : ℝ) (hz : s.zone = some v) (hv : v ≠ 0)
     (hs : s.sphere = false) (lon lat : ℝ) (z : Option ℝ) :
-    (Model.utmInit s >>= fun sc => Model.tmercFwd sc.1 sc.2 lon lat).toOption =
+    okOf (Model.utmInit s >>= fun sc => Model.tmercFwd sc.1 sc.2 lon lat) =
       xyOf (Js.tmercForward (Js.utmInit o) ⟨lon, lat, z⟩) := by
   obtain ⟨h1, h2, h3⟩ := go_init_utm_eq_js s o h v hz hv
   rw [h1, h2]
-  have := go_tmerc_fwd_eq_js' (utmSR s) (utmObj o) h3 (by unfold utmSR; exact hs) lon lat z
-  simp only [bind, Except.bind]
-  rw [← this]
-  unfold okOf
-  cases Model.tmercFwd (Model.tmercInit (utmSR s)).1 (Model.tmercInit (utmSR s)).2 lon lat <;> rfl
+  exact go_tmerc_fwd_eq_js' (utmSR s) (utmObj o) h3 (by unfold utmSR; exact hs) lon lat z
+
+/-- UTM, constructor + inverse closure -/
+theorem go_utm_inv_eq_js' (s : Model.SR ℝ) (o : Js.Obj ℝ) (h : Same s o) (v : ℝ) (hz : s.zone = some v) (hv : v ≠ 0)
+    (x y : ℝ) (z : Option ℝ) :
+    okOf (Model.utmInit s >>= fun sc => Model.tmercInv sc.1 sc.2 x y) =
+      xyOf (Js.tmercInverse (Js.utmInit o) ⟨x, y, z⟩) := by
+  obtain ⟨h1, h2, h3⟩ := go_init_utm_eq_js s o h v hz hv
+  rw [h1, h2]
+  exact go_tmerc_inv_eq_js' (utmSR s) (utmObj o) h3 x y z
 
 end GeomV.C09
